@@ -69,7 +69,7 @@ def run(c, chk):
         else:
             chk.ok('R15.1', 'state %d x COMMENT' % s, '%d residual path(s), all loop back to state %d without effect' % (len(trs), s),
                    sample=(s in (0, 2, 4, 13)))
-    chk.floor('R15.1 parser states', len(model.states), 16)
+    chk.floor('R15.1 parser states', len(model.states), 15)
 
     # ---- R15.2 -------------------------------------------------------------------
     for data in (b' ', b'\t', b' \t  ', b'\n'):
